@@ -44,7 +44,7 @@ def alphabet(seed=0):
     ops += [["open", m, form] for m in ("r", "r+", "a") for form in ("name", "list")]
     # a proper prefix of the chain (all but the newest container): e.g. a stale view of the record
     ops += [["open", m, "prefix"] for m in ("r", "r+")]
-    ops += [["merge"]]
+    ops += [["merge"], ["merge_again"]]
     return ops
 
 
@@ -88,6 +88,8 @@ class Life:
     def scan(self):
         """Returns violation text or None. Updates the committed set."""
         present = {f: ih5lib.sha(os.path.join(self.dir, f)) for f in os.listdir(self.dir) if os.path.isfile(os.path.join(self.dir, f))}
+        for f in os.listdir(self.mdir):  # merge results are committed records, too
+            present["merged/" + f] = ih5lib.sha(os.path.join(self.mdir, f))
         for f, h in self.committed.items():
             if f not in present:
                 return ("committed-removed", f"committed file {f} disappeared")
@@ -95,6 +97,10 @@ class Life:
                 return ("committed-modified", f"committed file {f} changed on disk")
         grew = False
         for f in present:
+            if f.startswith("merged/"):
+                if f not in self.committed and (not f.endswith(".ih5") or ub_committed(os.path.join(self.dir, f))):
+                    self.committed[f] = present[f]
+                continue
             if f.endswith(".ih5") and f not in self.committed and ub_committed(os.path.join(self.dir, f)):
                 self.committed[f] = present[f]
                 grew = True
@@ -143,6 +149,10 @@ class Life:
             elif k == "merge":
                 self.nmerge += 1
                 rec.merge_files(Path(self.mdir) / f"m{self.nmerge}")
+            elif k == "merge_again":
+                # merge onto a target that exists already (an earlier merge result, or the record itself)
+                tgt = Path(self.mdir) / f"m{self.nmerge}" if self.nmerge else Path(self.path)
+                rec.merge_files(tgt)
             else:
                 raise AssertionError(op)
             return "ok"
